@@ -89,7 +89,7 @@ theorem too_many_args_rejected (args : List Int) (h : args ≠ []) :
 theorem missing_arg (q : Param) (ps : List Param) :
     (q.dflt = none → bindParams (q :: ps) [] = .err .arity) ∧
     (∀ d v fr, q.dflt = some d → storeChecked q.ty d = .ok v → bindParams ps [] = .ok fr →
-      bindParams (q :: ps) [] = .ok ((q.name, .cell (.int q.ty v false)) :: fr)) := by
+      bindParams (q :: ps) [] = .ok ((q.name, .cell (.int q.ty v q.const)) :: fr)) := by
   constructor
   · intro h; unfold bindParams; simp [h]
   · intro d v fr h1 h2 h3; unfold bindParams; simp [h1, h2, h3]
